@@ -344,7 +344,7 @@ ck.finish({
             "pool mutex, wait-begin/-end and notify per condition-variable role, notify_one targets, spawn/join/end, job start/end, enqueue and call "
             "markers, the value seen at every loop_until_empty return) must be accepted event by event; loads/stores/RMWs of the bookkeeping atomics are "
             "internal steps (applied when they are the thread's next model step with the same value, skipped otherwise, inserted from the model state when a "
-            "visible event needs them: tau_inserted / tau_skipped, both 0 for the shipped statement order). The pool's objects are identified by role from the "
+            "visible event needs them: tau_inserted / tau_skipped; on the shipped statement order nothing is skipped, and a load is inserted only in the few runs where a counter is never written so that its role cannot be identified). The pool's objects are identified by role from the "
             "trace, no private member is named. A direct checker evaluates the property on the trace; rest states are classified. "
             "non-trivial = at least one job executed and >= 30 events; distinct = distinct event trace. In addition a real-thread stress program "
             "(no shim, -fsanitize=thread, pools of 1-8 threads, job trees / chains writing plain memory, two concurrent waiters, terminate from a job "
